@@ -1,11 +1,18 @@
 mod args;
+mod broker;
+mod c10;
 mod c14;
+mod hooks;
+mod mocknet;
+mod session;
 mod trace;
+mod wire;
 
 fn main() {
     let a = args::Args::parse();
     match a.cmd.as_str() {
         "c14" => c14::main(&a),
+        "c10" => c10::main(&a),
         other => {
             eprintln!("unknown sub-command {:?}", other);
             std::process::exit(2);
